@@ -1072,6 +1072,11 @@ func Run(r *common.Run) error {
 				}
 				continue
 			}
+			if len(f) == 6 && f[0] == "C05" && f[1] == "reuse" {
+				c.reuse(mkCfg(f[2], f[3]), f[4], strings.Split(f[5], ","))
+				executed++
+				continue
+			}
 			if len(f) != 8 || f[0] != "C05" || f[1] != "tx" {
 				continue
 			}
@@ -1151,6 +1156,9 @@ func Run(r *common.Run) error {
 		c.rawTopCorpus(cfg)
 		c.autoReply(cfg)
 	}
+	r.Mark("case token writer handles used after Close")
+	c.reuseAll()
+	r.Exhaustive = append(r.Exhaustive, "every program of length <= 3 over {EncodeToken, Flush, Close} on a closed token writer handle x {no holder (without Close), a second handle idle, a second handle mid-element} x session configuration")
 	for _, cfg := range cfgs {
 		c.sameStartTwice(cfg)
 		for _, cl := range corpus() {
